@@ -29,15 +29,6 @@ open Gen.Sections (Rec)
 
 /-! ### Python values and dictionaries -/
 
-/-- insertion-ordered `dict` with string keys -/
-abbrev Dict := List (Str × Val)
-
-def Dict.get (d : Dict) (k : Str) : Option Val := (d.find? (·.1 == k)).map (·.2)
-def Dict.has (d : Dict) (k : Str) : Bool := d.any (·.1 == k)
-/-- `d[k] = v` (an existing key keeps its position) -/
-def Dict.set (d : Dict) (k : Str) (v : Val) : Dict :=
-  if d.has k then d.map (fun p => if p.1 == k then (k, v) else p) else d ++ [(k, v)]
-
 def natToRat (n : Nat) : Rat := mkRat (Int.ofNat n) 1
 
 /-- the exact value of a decimal read from text -/
@@ -101,6 +92,21 @@ def trimTrailingNones (vals : List Val) : List Val :=
 def Val.str? : Val → Except Exc Str
   | .str s => .ok s
   | _ => .error .typeError
+
+end Model
+
+namespace Model.T2
+open Py
+open Gen.Sections (Rec)
+
+/-- insertion-ordered `dict` with string keys -/
+abbrev Dict := List (Str × Val)
+
+def Dict.get (d : Dict) (k : Str) : Option Val := (d.find? (·.1 == k)).map (·.2)
+def Dict.has (d : Dict) (k : Str) : Bool := d.any (·.1 == k)
+/-- `d[k] = v` (an existing key keeps its position) -/
+def Dict.set (d : Dict) (k : Str) (v : Val) : Dict :=
+  if d.has k then d.map (fun p => if p.1 == k then (k, v) else p) else d ++ [(k, v)]
 
 /-! ### lines -/
 
@@ -272,7 +278,7 @@ def defaultRockExtra : Dict :=
   [(c!"compressibility", .real 0), (c!"expansivity", .real 0), (c!"dry_conductivity", .real 0), (c!"tortuosity", .real 0)]
 
 /-- `x >= n` for a Python number -/
-def Val.ge (v : Val) (n : Int) : Except Exc Bool :=
+def _root_.Model.Val.ge (v : Val) (n : Int) : Except Exc Bool :=
   match v.rat? with
   | some r => .ok (decide (mkRat n 1 ≤ r))
   | Option.none => .error .typeError
@@ -987,4 +993,4 @@ def readMeshMaker (rf : ReadFn) (T : Tabs) : Nat → List MeshMaker → List Str
         | .ok (m, r) => readMeshMaker rf T fuel (match m with | some m => acc ++ [.minc m] | none => acc) r
       else readMeshMaker rf T fuel acc rest
 
-end Model
+end Model.T2
